@@ -1,7 +1,7 @@
 (* C03 - a stream has one input; foreign arrivals and departures never disturb it.
    Only property statements here; each is closed by [exact] (or a two-line proof). *)
 From Coq Require Import NArith ZArith List Bool.
-From Lal Require Import Group.GroupAdmission Group.GroupAdmissionProofs Group.GroupInvariantProofs.
+From Lal Require Import Group.GroupAdmission Group.GroupAdmissionProofs Group.GroupInvariantProofs Group.GroupAttemptProofs.
 Import ListNotations.
 Open Scope N_scope.
 
@@ -79,3 +79,30 @@ Theorem c03_stat_attached : forall cf h s g,
   (forall n, In n (stat_subs g) -> exists kd k, subk_of kd = Some k /\ In (k, n) (g_subs g) /\ vsess st n = Some (kd, s, true, false)).
 Proof. exact stat_lists_attached. Qed.
 Print Assumptions c03_stat_attached.
+
+(* Relay notifications per pull attempt, after any history: none while the attempt is in flight;
+   its start while it is attached; once it has ended exactly one stop, preceded by a start iff the
+   attempt had attached. *)
+Theorem c03_notifications_pull : forall cf h s i,
+  let '(st, log) := run fixed_tree cf init_state h in
+  att_word_ok (vatt st s i) (word log (WAtt s i)).
+Proof. exact notifications_pull. Qed.
+Print Assumptions c03_notifications_pull.
+
+(* the pull session the stat API lists is an attached attempt of that stream *)
+Theorem c03_stat_pull_attached : forall cf h s g i,
+  let st := fst (run fixed_tree cf init_state h) in
+  get_group st s = Some g -> stat_pull g = Some i -> vatt st s i = Some AAttached.
+Proof. exact stat_pull_attached. Qed.
+Print Assumptions c03_stat_pull_attached.
+
+(* non-vacuity: a history with a publisher, a refused second publisher, a pull overtaken by the
+   publisher, a subscriber, a kick and a departure reaches a state the theorems talk about *)
+Example c03_nonvacuous :
+  let h := [EStartPull 1 0 (-1) true; ERtmpPub 1 1 false; EFlvSub 1 2 false; ERtspPub 1 3 false; EPsPub 1 4;
+            EPullSucc 1 1; EKick 1 (KConn 1); EGone 1; ETick 1] in
+  let '(st, log) := run fixed_tree (mk_config false 1) init_state h in
+  map n_kind log = [NPubStart; NSubStart; NPullStop; NPubStop] /\
+  (exists g, get_group st 1 = Some g /\ occupied g = 0%nat /\ stat_subs g = [2]) /\
+  vsess st 3 = Some (KRtspPub, 1, false, true) /\ vatt st 1 1 = Some AFinished.
+Proof. vm_compute. split; [reflexivity|]. split; [eexists; split; [reflexivity|split; reflexivity]|split; reflexivity]. Qed.
